@@ -55,7 +55,9 @@ class Repartition(Expr):
             or self.partition_size is not None
         ):
             x = self.optimize(fuse=False)
-            return x._divisions()
+            # ``divisions`` (not ``_divisions()``) accounts for a partition
+            # selection that was absorbed by an IO expression
+            return x.divisions
         return self.new_divisions
 
     @property
